@@ -1109,6 +1109,17 @@ func (g *gen) sCo(fc *fctx) []Stmt {
 		co, ok, a, b, st := g.fresh("co"), g.fresh("ok"), g.fresh("ga"), g.fresh("gb"), g.fresh("st")
 		var fn string
 		var args []Expr
+		if g.ch(4) == 0 {
+			// the body is the yield function itself: it yields what it is given, and what the next resume is given
+			// are its results
+			g.use("coroutine_over_yield")
+			ok2, c, st2 := g.fresh("ok"), g.fresh("gc"), g.fresh("st")
+			return []Stmt{&Call{Names: []string{co}, Fn: Var{"cocreate"}, Args: []Expr{Var{"coyield"}}},
+				&Call{Names: []string{ok, a, b}, Fn: Var{"coresume"}, Args: []Expr{Var{co}, g.numExpr(0), g.numExpr(0)}},
+				&Call{Names: []string{st}, Fn: Var{"costatus"}, Args: []Expr{Var{co}}}, g.emitVars("gy", ok, a, b, st),
+				&Call{Names: []string{ok2, c}, Fn: Var{"coresume"}, Args: []Expr{Var{co}, g.numExpr(0)}},
+				&Call{Names: []string{st2}, Fn: Var{"costatus"}, Args: []Expr{Var{co}}}, g.emitVars("gy2", ok2, c, st2)}
+		}
 		switch g.ch(4) {
 		case 0:
 			fn, args = "emit", []Expr{Str{"gofn"}, g.numExpr(0)}
